@@ -135,7 +135,7 @@ def ob_send_update(med: int, a: int, b: int, las: int, ras: int, lp: int) -> boo
     exp_attrs = {1: E.origin(0), 2: E.as_path([(2, [las])], False), 3: E.next_hop(nh)}
     attr = {'1': 0, '2': [[2, [las]]], '3': '%s.%s.%s.%s' % (10, a, b, 1)}
     nlri, withdraw, exp_nlri, exp_wd = [], [], b'', b''
-    if shape in ('announce', 'announce+lp', 'announce+withdraw'):
+    if shape in ('announce', 'announce+lp', 'announce+withdraw', 'announce+ext'):
         attr['4'] = med
         exp_attrs[4] = E.med(med)
         nlri = ['%s.%s.%s.%s/%s' % (172, a, 0, 0, 16)]
@@ -144,6 +144,13 @@ def ob_send_update(med: int, a: int, b: int, las: int, ras: int, lp: int) -> boo
         assume(0 <= lp < 2 ** 32)
         attr['5'] = lp
         exp_attrs[5] = E.local_pref(lp)
+    if shape == 'announce+ext':
+        # route targets (symbolic administrator / number) next to a colour: all of them must be in the message
+        assume(0 <= lp < 2 ** 32)
+        attr['16'] = ['route-target:%s:%s' % (las, lp % 65536), 'color:%s' % lp, 'route-target:%s:%s' % (ras, 7)]
+        exp_attrs[16] = E.ext_communities([[0, 2] + list(E.u16(las)) + list(E.u32(lp % 65536)),
+                                           [3, 0x0b, 0, 0] + list(E.u32(lp)),
+                                           [0, 2] + list(E.u16(ras)) + list(E.u32(7))])
     if shape in ('withdraw', 'announce+withdraw'):
         withdraw = ['%s.%s.%s.%s/%s' % (192, 168, b, 0, 24)]
         exp_wd = E.prefix([192, 168, b], 24)
@@ -257,7 +264,7 @@ def obligations(tier, seed):
             prm.update(extra)
             out.append(ob('C16/gate/%s/%s%s' % (endpoint, S.STATE_NAMES[st], ''.join('/%s=%s' % kv for kv in extra.items())),
                           'ob_gate', prm, covers=['called']))
-    for shape in ('announce', 'announce+lp', 'withdraw', 'announce+withdraw'):
+    for shape in ('announce', 'announce+lp', 'withdraw', 'announce+withdraw', 'announce+ext'):
         for ibgp in (True, False):
             out.append(ob('C16/send-update/%s/ibgp=%s' % (shape, ibgp), 'ob_send_update', {'shape': shape, 'ibgp': ibgp},
                           covers=['sent'], cap=250))
